@@ -305,8 +305,21 @@ def run(ck):
             return st
         for s0 in [x_ for x_ in cw_.blocks[hdr].succs if x_ is not None and x_ in body]:
             cfg.run_automaton(cw_, 0, st_, edge=ed_, start=s0)
+        # a bare extension token is harmless while the reader keeps every token of its extension branch (one without '=' is stored with
+        # an empty value): it loses data only together with a reader that gives up when it finds no '='
+        fr_ = lib.single(prog, "Pistache::Http::Cookie::fromRaw")
+        ext_ins = lambda e: e["k"] == "call" and e.base_callee() in ("std::map::insert", "std::unordered_map::insert", "std::map::emplace", "std::unordered_map::emplace", "std::map::try_emplace", "std::unordered_map::try_emplace", "std::map::operator[]", "std::unordered_map::operator[]") and \
+            ((e.get("recv") or {}).get("f") or "").endswith("Cookie::ext")
+        reader_drops = False
+        for bid_, k_ in lib.result_edges(fr_, "Pistache::match_until", False):
+            arm_ = fr_.blocks[bid_].succs[k_]
+            if arm_ is not None and [x for x in cfg.exits_without(fr_, ext_ins, start_block=arm_) if x.kind != "throw"]:
+                reader_drops = True
+        if bare and not reader_drops:
+            ck.note("C17-R1: Cookie::write can write an extension attribute without '='; harmless while Cookie::fromRaw stores every token of its extension branch")
+            bare = []
         ck.ob("C17-R1", "Cookie::write/ext-name-always-followed-by-=", not bare, ins[0].loc, cw_,
-              "every way round the loop over the extension attributes writes '='" if not bare else
+              "every way round the loop over the extension attributes writes '=' (or the reader keeps bare tokens)" if not bare else
               "an extension attribute can be written without its '=' (block %s): Cookie::fromRaw reads an extension as name '=' value, a bare "
               "token is something else to it" % bare[0])
     if not nloop:
